@@ -100,6 +100,22 @@ def tpl_cancel(v, av, e, k, i1, i2, i3, t, m=0, sw=0, _twin=False):
                             code = 607
                     elif (r["state"], r["cancels"]) != (st0, c0):
                         code = 604
+            if not code and err is not None:
+                # a later, valid call must cancel exactly what it names - nothing left over from the rejected call
+                victims = [r for r in w.W if r["state"] == "run"]
+                if victims:
+                    v = victims[-1]
+                    snap = [(r["state"], r["cancels"]) for r in w.W]
+                    e3 = it.cancel(v["id"])
+                    w.settle()
+                    if e3 is not None:
+                        code = 601
+                    for n2, r in enumerate(w.W):
+                        if r is v:
+                            if r["cancels"] != snap[n2][1] + 1:
+                                code = code or 603
+                        elif (r["state"], r["cancels"]) != snap[n2]:
+                            code = code or 604
             if not code and err is None and k >= 1:
                 still = [r for r in w.W if any(r["id"] == i for i in ids) and r["state"] == "run"]
                 err2 = it.cancel(*ids)
